@@ -3,6 +3,7 @@ package main
 import (
 	"fmt"
 	"github.com/lidofinance/dc4bc/fsm/state_machines"
+	"github.com/lidofinance/dc4bc/fsm/types/requests"
 	"strings"
 )
 
@@ -72,7 +73,15 @@ func scenarioC19(c *Ctx) {
 		step := func(inst *state_machines.FSMInstance, ev Ev, steps *[]string, obs *[]string) (StepObs, StepObs, []byte) {
 			pre, err := inst.Dump()
 			if err != nil {
-				panic(err)
+				// the live round has taken a transition its dump cannot follow: it behaves like no
+				// restored round can
+				if !reported["undumpable"] {
+					reported["undumpable"] = true
+					fail("live-round-cannot-be-dumped", map[string]interface{}{},
+						"a round continued in memory can no longer be dumped after an event that was answered with an error: it has moved on while every stored copy has not ("+err.Error()+")",
+						map[string]interface{}{"steps": append([]string{}, *steps...), "next_event": ev.Line()})
+				}
+				return StepObs{Class: "undumpable"}, StepObs{Class: "undumpable"}, nil
 			}
 			restored := doOnDump(pre, ev)
 			live := doOnInstance(inst, ev)
@@ -153,6 +162,38 @@ func scenarioC19(c *Ctx) {
 			both(ev)
 		}
 		c.Case("two-rounds-in-memory", true, "skip two-rounds", "skip two-rounds")
+		// (iv) error reports whose text carries control characters (Go error / panic strings do), in the
+		// key generation and in the signing phase, each followed by one more event: the live round and
+		// its restored copy must go on agreeing, and the live round must stay dumpable
+		{
+			instC, _ := loadDump(bz) // commits awaited
+			var stC, obC []string
+			for _, ev := range []Ev{
+				{dkgErrorEv[0], reqError(0, strp("bad\x01text\x7f\v\a"), tNorm), "dkg-error"},
+				{dkgConfirmEv[0], reqData(0, 1, "data0-1", tNorm), "dkg-confirm"},
+			} {
+				live, restored, pre := step(instC, ev, &stC, &obC)
+				if pre != nil {
+					report(pre, live, restored, midProj, stC)
+				}
+			}
+			ready := readyDump(n, t)
+			instS, _ := loadDump(ready)
+			var stS, obS []string
+			explicit := []requests.SigningTask{{MessageID: "msg-1", File: "f1", Payload: []byte("payload-1")}}
+			signs := []requests.PartialSign{{MessageID: "msg-1", Sign: []byte("psig1-1")}}
+			for _, ev := range []Ev{
+				{"event_signing_start", reqStart("batch-A", 0, tNorm, explicit), "start"},
+				{"event_signing_partial_sign_error_received", reqSigError(0, strp("bad\x01text\x7f\v\a"), tNorm, "batch-A"), "sgn-error"},
+				{"event_signing_partial_sign_received", reqPartial("batch-A", 1, signs, tNorm), "partial"},
+			} {
+				live, restored, pre := step(instS, ev, &stS, &obS)
+				if pre != nil {
+					report(pre, live, restored, "ready for signing", stS)
+				}
+			}
+			c.Case("control-characters-in-error-texts", true, "skip control-chars", "skip control-chars")
+		}
 	}
 	for w := 0; w < walks+len(loadable); w++ {
 		p := loadable[c.Rng.Intn(len(loadable))]
@@ -183,7 +224,14 @@ func scenarioC19(c *Ctx) {
 			}
 			pre, err := inst.Dump()
 			if err != nil {
-				panic(err)
+				// the live round has taken a transition its dump cannot follow
+				if !reported["undumpable"] {
+					reported["undumpable"] = true
+					fail("live-round-cannot-be-dumped", map[string]interface{}{},
+						"a round continued in memory can no longer be dumped after an event that was answered with an error: it has moved on while every stored copy has not ("+err.Error()+")",
+						map[string]interface{}{"steps": append([]string{}, caseSteps...), "next_event": ev.Line()})
+				}
+				break
 			}
 			restored := doOnDump(pre, ev)
 			live := doOnInstance(inst, ev)
